@@ -833,6 +833,33 @@ fn huge(a: &Args) {
     write_json(&a.str("out"), &json!({"cases": cases}));
 }
 
+/// alias out=<json> : the free estimators called with both arguments taken from ONE buffer: the whole of it twice must
+/// give exactly 1, the whole of it against a proper prefix of it must be reported (Err or panic) like any other length
+/// mismatch
+fn alias(a: &Args) {
+    silence_panics();
+    let mut cases: Vec<Value> = Vec::new();
+    let n = 97usize;
+    let vu: Vec<u64> = (0..n as u64).map(|i| i * 7 + 3).collect();
+    let vf: Vec<f64> = (0..n).map(|i| i as f64 + 0.5).collect();
+    let vs: Vec<f32> = (0..n).map(|i| i as f32 + 0.5).collect();
+    let mut push = |name: &str, same: Result<Option<f64>, String>, pre: Result<Option<f64>, String>| {
+        let s_ok = matches!(same, Ok(Some(v)) if v == 1.0);
+        let p_ok = !matches!(pre, Ok(Some(_)));
+        cases.push(json!({"fn": name, "same_buffer_twice": format!("{:?}", same), "buffer_vs_its_prefix": format!("{:?}", pre),
+                          "ok": s_ok && p_ok}));
+    };
+    push("jaccard::compute_probminhash_jaccard<u64>", catch(|| Some(jaccard::compute_probminhash_jaccard(&vu[..], &vu[..]))),
+         catch(|| Some(jaccard::compute_probminhash_jaccard(&vu[..], &vu[..n - 5]))));
+    push("superminhasher::compute_superminhash_jaccard<f64>", catch(|| smh::compute_superminhash_jaccard(&vf[..], &vf[..]).ok()),
+         catch(|| smh::compute_superminhash_jaccard(&vf[..], &vf[..n - 5]).ok()));
+    push("superminhasher::compute_superminhash_jaccard<f32>", catch(|| smh::compute_superminhash_jaccard(&vs[..], &vs[..]).ok().map(|v| v as f64)),
+         catch(|| smh::compute_superminhash_jaccard(&vs[..], &vs[..n - 5]).ok().map(|v| v as f64)));
+    push("superminhasher::get_jaccard_index_estimate<f64>", catch(|| smh::get_jaccard_index_estimate(&vf[..], &vf[..]).ok()),
+         catch(|| smh::get_jaccard_index_estimate(&vf[..], &vf[..n - 5]).ok()));
+    write_json(&a.str("out"), &json!({"cases": cases}));
+}
+
 fn main() {
     let argv: Vec<String> = std::env::args().skip(1).collect();
     if argv.is_empty() {
@@ -843,6 +870,7 @@ fn main() {
         "count" => count(&a),
         "mle" => mle(&a),
         "huge" => huge(&a),
+        "alias" => alias(&a),
         _ => tool_error("unknown mode"),
     }
 }
